@@ -146,6 +146,7 @@ inductive Op where
   | set (path : List String) (leaf : String) (v : V)
   | del (path : List String) (leaf : String)
   | pop (path : List String) (leaf : String)
+  | setU (path : List String) (leaf : String) (v : V)     -- `update(..., only_unset=True)`: assign only if absent
 
 /-- the code: `ns[key] = v`, `del ns[key]` (an exception leaves the namespace as it is), `ns.pop(key)` -/
 def stepC (clash : List String) : Op → KV → KV
@@ -158,20 +159,25 @@ def stepC (clash : List String) : Op → KV → KV
     match popSegs (p.map (mark clash)) (mark clash l) .none r with
     | .ok x => x.2
     | .error _ => r
+  | .setU p l v, r =>
+    if !(containsSegs (p.map (mark clash)) (mark clash l) r) then setSegs (p.map (mark clash)) (mark clash l) v r else r
 
 /-- the specification: a nested dictionary with plain keys -/
 def stepS : Op → KV → KV
   | .set p l v, r => setK ((p ++ [l]).map plain) (absV v) r
   | .del p l, r => delK ((p ++ [l]).map plain) r
   | .pop p l, r => delK ((p ++ [l]).map plain) r
+  | .setU p l v, r => if !(getK ((p ++ [l]).map plain) r).isSome then setK ((p ++ [l]).map plain) (absV v) r else r
 
 def opPath : Op → List String
   | .set p _ _ => p
   | .del p _ => p
   | .pop p _ => p
+  | .setU p _ _ => p
 
 def opCanon (clash : List String) : Op → Bool
   | .set _ _ v => canonV clash v
+  | .setU _ _ v => canonV clash v
   | _ => true
 
 /-- no operation of the sequence reaches through a dict value, and assigned namespaces are canonical -/
@@ -185,6 +191,12 @@ def runS (ops : List Op) (r : KV) : KV := ops.foldl (fun acc op => stepS op acc)
 
 theorem map_append_mark (clash : List String) (p : List String) (l : String) :
     (p ++ [l]).map (mark clash) = p.map (mark clash) ++ [mark clash l] := by simp
+
+theorem containsSegs_eq (path : List SKey) (leaf : SKey) (root : KV) (hnd : noDict path (.ns root) = true) :
+    containsSegs path leaf root = (getK (path ++ [leaf]) root).isSome := by
+  unfold containsSegs
+  rw [getSegs_eq_getK path leaf root hnd]
+  cases getK (path ++ [leaf]) root <;> rfl
 
 theorem step_refines (clash : List String) (op : Op) (r : KV) (hc : canonKV clash r = true)
     (hnd : noDict ((opPath op).map (mark clash)) (.ns r) = true) (hv : opCanon clash op = true) :
@@ -220,6 +232,17 @@ theorem step_refines (clash : List String) (op : Op) (r : KV) (hc : canonKV clas
     obtain ⟨a1, a2⟩ := abs_delK clash (p ++ [l]) r hc
     rw [map_append_mark] at a1 a2
     exact ⟨a1, a2⟩
+  | setU p l v =>
+    simp only [opPath] at hnd
+    simp only [opCanon] at hv
+    simp only [stepC, stepS]
+    rw [containsSegs_eq _ _ _ hnd, abs_getK clash (p ++ [l]) r hc, map_append_mark]
+    cases hg : getK (p.map (mark clash) ++ [mark clash l]) r with
+    | some w => simp [hc]
+    | none =>
+      simp only [Option.map, Option.isSome, Bool.not_false, if_true]
+      rw [setSegs_eq_setK _ _ _ _ hnd, ← map_append_mark]
+      exact abs_setK clash v hv (p ++ [l]) r hc
 
 theorem run_refines (clash : List String) : ∀ (ops : List Op) (r : KV), canonKV clash r = true →
     safe clash ops r = true →
@@ -233,5 +256,62 @@ theorem run_refines (clash : List String) : ∀ (ops : List Op) (r : KV), canonK
     simp only [runC, runS, List.foldl_cons] at i1 i2 ⊢
     rw [← s1]
     exact ⟨i1, i2⟩
+
+/-! ### `update` is a sequence of assignments -/
+
+def splitLastS : List String → Option (List String × String)
+  | [] => .none
+  | [x] => some ([], x)
+  | x :: r => match splitLastS r with
+    | some (p, l) => some (x :: p, l)
+    | .none => .none
+
+theorem splitLast_map (clash : List String) : ∀ l : List String,
+    splitLast (l.map (mark clash)) = (splitLastS l).map (fun pl => (pl.1.map (mark clash), mark clash pl.2))
+  | [] => rfl
+  | [x] => rfl
+  | x :: y :: r => by
+    have ih := splitLast_map clash (y :: r)
+    simp only [List.map] at ih ⊢
+    simp only [splitLast, splitLastS, ih]
+    cases splitLastS (y :: r) <;> rfl
+
+/-- the assignments `update(value, key, only_unset)` performs, in order -/
+def updateOps (onlyUnset : Bool) (pre : List String) : List (List String × V) → List Op
+  | [] => []
+  | kv :: rest =>
+    match splitLastS (pre ++ kv.1) with
+    | .none => updateOps onlyUnset pre rest
+    | some (p, l) => (if onlyUnset then Op.setU p l kv.2 else Op.set p l kv.2) :: updateOps onlyUnset pre rest
+
+theorem updateOne_eq_step (clash : List String) (onlyUnset : Bool) (segs : List String) (v : V) (root : KV) :
+    updateOne clash onlyUnset segs v root =
+      match splitLastS segs with
+      | .none => root
+      | some (p, l) => stepC clash (if onlyUnset then Op.setU p l v else Op.set p l v) root := by
+  unfold updateOne
+  rw [splitLast_map]
+  cases splitLastS segs with
+  | none => rfl
+  | some pl =>
+    cases onlyUnset <;> simp [stepC]
+
+theorem foldl_updateOne (clash : List String) (onlyUnset : Bool) (pre : List String) :
+    ∀ (its : List (List String × V)) (root : KV),
+    its.foldl (fun acc kv => updateOne clash onlyUnset (pre ++ kv.1) kv.2 acc) root
+      = runC clash (updateOps onlyUnset pre its) root
+  | [], _ => rfl
+  | kv :: rest, root => by
+    simp only [List.foldl_cons, updateOps]
+    rw [updateOne_eq_step, foldl_updateOne clash onlyUnset pre rest]
+    cases splitLastS (pre ++ kv.1) with
+    | none => rfl
+    | some pl => simp [runC]
+
+/-- `ns.update(value, key, only_unset)` is exactly that sequence of assignments -/
+theorem updateSegs_eq_runC (clash : List String) (value : KV) (pre : List String) (onlyUnset : Bool) (root : KV) :
+    updateSegs clash value pre onlyUnset root = runC clash (updateOps onlyUnset pre (itemsSegs false value)) root := by
+  unfold updateSegs
+  exact foldl_updateOne clash onlyUnset pre _ root
 
 end Jap.NS
